@@ -129,7 +129,10 @@ bool Subprocess::Start(SubprocessSet* set, const string& command) {
   if (err != 0)
     Fatal("posix_spawnattr_setflags: %s", strerror(err));
 
-  const char* spawned_args[] = { "/bin/sh", "-c", command.c_str(), NULL };
+  // "--" ends the shell's own options: a command line that starts with '-'
+  // or '+' (e.g. `$in ...` with an input named -x) is a command, not a flag.
+  const char* spawned_args[] = { "/bin/sh", "-c", "--", command.c_str(),
+                                 NULL };
   err = posix_spawn(&pid_, "/bin/sh", &action, &attr,
         const_cast<char**>(spawned_args), environ);
   if (err != 0)
